@@ -1,2 +1,13 @@
 #!/bin/sh
-exit 0
+# builds the libTooling fact extractor (offline, ~20 s)
+set -e
+HERE=$(cd "$(dirname "$0")" && pwd)
+mkdir -p "$HERE/build/facts"
+SRC="$HERE/tools/nanofacts/nanofacts.cc"
+OUT="$HERE/build/nanofacts"
+if [ ! -x "$OUT" ] || [ "$SRC" -nt "$OUT" ]; then
+  clang++ $(llvm-config-14 --cxxflags) -std=c++17 -fno-rtti -O1 -w "$SRC" -o "$OUT.tmp.$$" \
+     /usr/lib/llvm-14/lib/libclang-cpp.so.14 /usr/lib/llvm-14/lib/libLLVM-14.so
+  mv "$OUT.tmp.$$" "$OUT"
+fi
+echo "nanofacts ready"
